@@ -53,6 +53,8 @@ func runC42(w *World, r *Report) {
 		return
 	}
 
+	c42SharedBytecodeCache(w, r)
+
 	c42Removals(w, r, w.srcFuncs(sp), func(v ssa.Value) bool {
 		g, ok := v.(*ssa.Global)
 
@@ -602,5 +604,65 @@ func c42Removals(w *World, r *Report, fns []*ssa.Function, isCacheGlobal func(ss
 				r.Discharge("R-C42-4", key, w.pos(in.Pos()), "Route.NeedsLock(true) on every path before the removal")
 			}
 		})
+	}
+}
+
+// c42SharedBytecodeCache: R-C42-5. The compiled code of a service is one
+// ByteCode object run by every request of the endpoint, and it carries a
+// name-resolution cache (instruction -> table the name was found in). A table
+// may go into that cache only if it is the same for every request, i.e. a
+// process-wide singleton; a request's own table (which holds _request,
+// _response_writer, _user and the URL parts) remembered there is read by the
+// next request that executes the same instruction.
+func c42SharedBytecodeCache(w *World, r *Report) {
+	r.Rule("R-C42-5", "the name-resolution cache of compiled code shared by requests holds process-wide tables only: every ByteCode.cacheGlobalTable call is reachable only through the true edge of IsGlobalSingleton() on the very table it stores", 2)
+
+	bp := w.pkg("internal/language/bytecode")
+	if bp == nil {
+		return
+	}
+
+	n := 0
+
+	for _, fn := range w.srcFuncs(bp) {
+		count := map[string]int{}
+
+		allInstrs(fn, func(in ssa.Instruction) {
+			c, ok := in.(*ssa.Call)
+			if !ok || callID(c.Common()) != "internal/language/bytecode.ByteCode.cacheGlobalTable" || len(c.Call.Args) < 3 {
+				return
+			}
+
+			n++
+
+			key := fnKey(fn) + "|table cached on shared bytecode"
+			count[key]++
+
+			if k := count[key]; k > 1 {
+				key += "#" + sprintInt(k)
+			}
+
+			table := c.Call.Args[2]
+
+			cuts := cutEdges(fn, func(f Fact) bool {
+				if f.Kind != "true" {
+					return false
+				}
+
+				sc, ok := f.V.(*ssa.Call)
+
+				return ok && callID(sc.Common()) == "internal/language/symbols.SymbolTable.IsGlobalSingleton" && sc.Call.Args[0] == table
+			})
+
+			if len(cuts) == 0 || instrReachableAfterCut(fn, in, cuts) {
+				r.Violate("R-C42-5", key, w.pos(in.Pos()), "a table that is not known to be a process-wide singleton is remembered on the compiled code all requests of the service share: a concurrent request executing the same instruction resolves _request, _response_writer, _user or a URL part in the other request's table")
+			} else {
+				r.Discharge("R-C42-5", key, w.pos(in.Pos()), "only behind IsGlobalSingleton() of the stored table")
+			}
+		})
+	}
+
+	if n == 0 {
+		r.Anchor("R-C42-5", "a call of ByteCode.cacheGlobalTable in package bytecode")
 	}
 }
